@@ -350,6 +350,23 @@ class C06(Prop):
         'exc_info tuples are never iterated / compared by == inside Raises (their traceback member is outside the value universe)',
     ]
 
+    manifest = {
+        'text': 'Theorem C06_sound_partial, by structural induction over matcher expressions of any depth (all stock matchers and combinators; '
+                'leaves whose meaning lives in re/doctest/os/warnings as arbitrary predicate tables): for every value in the documented domain '
+                'match() returns exactly the documented verdict (Not negates, MatchesAll/Any = and/or, AllMatch/AnyMatch = forall/exists, '
+                'MatchesListwise positional with equal length, dict matchers = key-set condition + per-key matchers, MatchesStructure per attribute, '
+                'Annotate/AfterPreprocessing transparent, SameMembers <=> List.Perm, Raises with the propagate rule), for either set-iteration order; '
+                'full strength for every expression without MatchesSetwise (C06_sound_setwiseFree); for MatchesSetwise: specification = existence of a '
+                'one-to-one assignment (C06_spec_setwise_assignment), greedy code proved equal to it when no value matches two matchers; the remaining '
+                'case is the recorded finding D5 (C06_setwise_witness: two set orders, two verdicts). Determinism/purity hold by construction of the model. '
+                'The hand-written model is tied to the code by a differential check over random value-directed expressions with forced set orders.',
+        'note': 'partial: finding D5 (class ambiguousSetwise) excluded from the soundness/determinism theorems; opaque leaves (regex, doctest, filesystem, '
+                'warnings, MatchesPredicate over harness predicates) are tested against an independent oracle, not proved; Python ==, <, in, len, iter, '
+                'getattr on the value universe are modelled, not verified; MatchesPredicate on tuple matchees is outside the C06 domain (see C07 finding)',
+        'technique': 'Lean 4 mutual structural induction over a nested matcher AST (matchImpl following the code vs. a declarative spec), executable '
+                     'spec shared with a differential correspondence check (value-directed generator, forced hash-set orders, independent oracles)',
+    }
+
     def __init__(self):
         self._cat = None
         self.unmodelled = None
